@@ -376,7 +376,7 @@ func TestC21(t *testing.T) {
 		"sleep(1..120 ms around the 25 ms quick and 100 ms long timers) / inject 1..2 publish failures, optional Close, run against mfs.NewRepublisher " +
 		"with a fake publish function taking 0..15 ms; 10 corpus scripts first; non-trivial = trace has >= 2 publish attempts or a failed one, and a WaitPub; " +
 		"distinct by trace")
-	cs := vh.NewCases(e, "From V Require Import model.M_C21.\nOpen Scope Z_scope.", "case", "check_case", 100)
+	cs := vh.NewCases(e, "From V Require Import model.M_C21.\nOpen Scope Z_scope.", "case", "check_case", 40)
 	n := e.Pick(160, 2500)
 	scripts := corpus()
 	for len(scripts) < n {
